@@ -66,15 +66,21 @@ Theorem shared_counter_refuted :
 Proof. vm_compute. reflexivity. Qed.
 
 (* (iv) registration after the roll-back: a lagging timeout sweep times out the pending holder 101, the wake-up pass
-   grants the queued ack-lock 102 (record pushed) and the same sweep times 102 out (TIMEOUT sent, hold rolled back);
-   only then is 102's record registered -- writing ackCount into a dead lock -- and its acknowledgement draws a second
-   terminal reply for request 2 *)
+   grants the queued ack-lock 102 (record pushed) and the same sweep times 102 out (TIMEOUT sent, hold rolled back,
+   UNLOCK record pushed).  Only then do the records pass ReplicationManager.PushLock: 102's LOCK record is registered
+   -- writing ackCount into a dead lock -- and 102's own UNLOCK record, next in the queue, drops that registration
+   again and runs DoAckLock(false), which finds a pending counter on a lock that holds nothing: a second terminal
+   reply LOCKED_ERROR for request 2, in the same sweep.  No acknowledgement is involved; the later one for the
+   record finds no registration.  (Before ProcessLeaderPushUnLock was modelled the second reply appeared at the
+   acknowledgement -- an artefact: the registration does not survive the UNLOCK record.) *)
 Definition run_late_registration : list aaction :=
   [wL 1 101 4096 2 0 10 0; wL 2 102 4096 5 0 10 0; AAct (AAdvance 20); AAct ASweepT; AAckEvt 1 true].
 Theorem late_registration_refuted :
   let '(st, evs) := arun (init_astate 1000000 0 1) run_late_registration in
   answers evs =
     [[]; []; [];
-     [EReply 1 1 R_TIMEOUT 0 0 101 0 0 None; EReply 1 2 R_TIMEOUT 0 0 102 0 0 None];
-     [EReply 1 2 R_LOCKED_ERROR 0 0 102 0 0 None]].
-Proof. vm_compute. reflexivity. Qed.
+     [EReply 1 1 R_TIMEOUT 0 0 101 0 0 None; EReply 1 2 R_TIMEOUT 0 0 102 0 0 None;
+      EReply 1 2 R_LOCKED_ERROR 0 0 102 0 0 None];
+     []]
+  /\ a_reg st = [] /\ a_next st = 2.
+Proof. vm_compute. repeat split. Qed.
